@@ -10,8 +10,10 @@ import (
 )
 
 var table = map[string]func(tier string) int{
+	"C07": checks.C07,
 	"C08": checks.C08,
 	"C09": checks.C09,
+	"C10": checks.C10,
 }
 
 func main() {
